@@ -679,6 +679,86 @@ def _tally(ctx, inp, nd, mask_kind):
             ctx.count("api:" + flag)
 
 
+def _rotate_in_box(arr, R):
+    shape = np.array(arr.shape)
+    c = (shape - 1) / 2
+    out = np.zeros(arr.shape, dtype=np.float64)
+    Ri = np.linalg.inv(R)
+    for x in itertools.product(*[range(int(v)) for v in shape]):
+        src = Ri @ (np.array(x) - c) + c
+        isrc = np.rint(src).astype(int)
+        if np.abs(src - isrc).max() > 1e-9:
+            return None
+        if np.all(isrc >= 0) and np.all(isrc < shape):
+            out[x] = arr[tuple(isrc)]
+    return out
+
+
+def _crop_rotations(ctx, rng, n):
+    for i in range(n):
+        nd = 2 if i % 3 else 3
+        score = ("CC", "FLC")[i % 2]
+        par = int(rng.integers(0, 2))
+        while True:
+            ms = [int(2 * rng.integers(1, 4 if nd == 2 else 3) + par) for _ in range(nd)]
+            if len(set(ms)) > 1:
+                break
+        a, b = [int(v) for v in rng.permutation(nd)[:2]]
+        if ms[a] == ms[b]:
+            ms[b] = ms[a] + 2
+        k = int(rng.choice([1, 3]))
+        R = np.eye(nd)
+        q = np.linalg.matrix_power(np.array([[0.0, -1.0], [1.0, 0.0]]), k)
+        R[np.ix_([a, b], [a, b])] = q
+        ns = [int(m + rng.integers(2, 7)) for m in ms]
+        pad = bool(rng.random() < 0.5)
+        # (order 3 smooths the mask: it is interpolated without the spline prefilter - known finding of the main stream)
+        order = int(rng.choice([1, 3])) if score == "CC" else 1
+        double = bool(rng.random() < 0.4)
+        target = rng.integers(-4, 5, size=ns).astype(np.float64)
+        template = rng.integers(-4, 5, size=ms).astype(np.float64)
+        template.flat[0] += 3                      # a corner voxel that leaves the box
+        mask = np.ones(ms)
+        if score in ("FLC",) and rng.random() < 0.5:
+            mask = (rng.random(ms) < 0.8).astype(float)
+            mask.flat[0] = 1
+        gR, wR = _rotate_in_box(template, R), _rotate_in_box(mask, R)
+        inp = {"score": score, "ns": ns, "ms": ms, "pad": pad, "order": order, "double": double, "R": R,
+               "target": target.reshape(-1).tolist(), "template": template.reshape(-1).tolist(), "mask": mask.reshape(-1).tolist()}
+        clause = f"{score}: under a quarter turn that changes the template's box the reported score is the spatial-domain " \
+                 f"score of the template turned about its centre and cut to its own box"
+        if gR is None or wR.sum() < 2 or (gR * wR).std() == 0:
+            continue
+        S.set_precision(double)
+        try:
+            res, _ = S.run_scan(score, target, template, mask=None if score in ("CC", "LCC") else mask, rotations=[R], pad=pad,
+                                order=order, dtype=np.float64 if double else np.float32)
+            sc = np.asarray(res[0], dtype=np.float64)
+        except Exception as e:  # noqa
+            ctx.spec(clause, inp, False, f"{type(e).__name__}: {e}", key=f"{score}:crop-rotation")
+            continue
+        finally:
+            S.set_precision(False)
+        inside = S.inside_mask(ns, ms) if not pad else np.ones(ns, bool)
+        if score == "CC":
+            ax = tuple(range(nd, 2 * nd))
+            ref = (S.windows(target, ms) * gR).sum(axis=ax)
+            stable = np.ones(ns, bool)
+            tol = 1e-3 if not double else 1e-8
+        else:
+            ref, stable = S.pearson_textbook(target, gR, wR)
+            stable &= S.window_var(target, wR) > 0.5
+            tol = 2e-3 if not double else 1e-6
+        sel = inside & stable
+        if sc.shape != tuple(ns) or not sel.any():
+            ctx.spec(clause, inp, sc.shape == tuple(ns), {"shape": list(sc.shape)}, key=f"{score}:crop-rotation")
+            continue
+        err = float(np.abs(sc - ref)[sel].max())
+        ctx.spec(clause, inp, err <= tol, {"max_err": err, "tol": tol}, key=f"{score}:crop-rotation")
+        ctx.count(f"crop-rotation:{score}:{nd}d")
+        ctx.distinct(("crop-rot", score, tuple(ns), tuple(ms), a, b, k, pad, order, double))
+
+
 def run(ctx):
     d = ctx.driver
     rng = ctx.rng("main")
@@ -758,6 +838,11 @@ def run(ctx):
             past.append({k: v for k, v in sib.items() if k != "before"})
             ctx.count("session:same-shapes-new-contents")
         ctx.distinct(sig + ("same-shape",))
+
+    # ---- rotations that do not preserve the template box: non-cubic templates of equal parity under quarter turns mixing
+    #      two unequal axes.  The rotated template is the template turned about its geometric centre and resampled on its
+    #      own box (grid points map to grid points; what leaves the box is not part of the window).
+    _crop_rotations(ctx, ctx.rng("crop-rot"), ctx.budget(12, 60))
 
     # ---- sessions: consecutive searches with different templates of one shape, rotations spread over two (reused) workers
     for i in range(ctx.budget(4, 30)):
